@@ -1,35 +1,43 @@
 #!/bin/bash
-# Applies each patch in a directory to /repo's working tree, checks that the repository's own test
-# suite still passes, runs the quick checks, records which checks report a violation, restores the tree.
-# usage: tools/run_mutants.sh [dir-or-patch ...]      (default: /verif/mutants)
-# env: CHECKS="C01 C02 ..." to restrict; SUITE=0 to skip the repository test suite
+# Runs the quick checks against property-breaking patches, on scratch copies of /repo and /verif
+# (so that neither /repo nor the evidence files in /verif are touched and work in /verif can go on).
+#   tools/run_mutants.sh [dir-or-patch ...]      (default: /verif/mutants /verif/seeded)
+# env: CHECKS="C01 C02 ..." to restrict; SUITE=0 to skip the repository's own test suite;
+#      KEEP=1 to keep the scratch directory.
+# For each patch: apply to the scratch repo, run the repository's test suite there (a mutant must
+# pass it to count), run the checks, record which checks print a VIOLATION line, restore the tree.
 set -u
 ROOT="$(cd "$(dirname "$0")/.." && pwd)"
 CHECKS="${CHECKS:-C01 C02 C03 C04 C05 C06 C07 C08 C09 C10 C11 C12 C13 C14 C15 C16 C17 C18 C19}"
 OUT="$ROOT/mutants/RESULTS.tsv"
-[ $# -eq 0 ] && set -- "$ROOT/mutants"
+[ $# -eq 0 ] && set -- "$ROOT/mutants" "$ROOT/seeded"
 patches=()
 for a in "$@"; do
   if [ -d "$a" ]; then for f in "$a"/*.diff "$a"/*/patch.diff; do [ -f "$f" ] && patches+=("$f"); done; else patches+=("$a"); fi
 done
-if [ -n "$(git -C /repo status --porcelain)" ]; then echo "refusing: /repo working tree is not clean"; exit 2; fi
+S="$(mktemp -d /tmp/pv-mut-XXXXXX)"
+trap '[ "${KEEP:-0}" = 1 ] || rm -rf "$S"' EXIT
+rsync -a --exclude target /repo/ "$S/repo/"
+git -C "$S/repo" checkout -q -- . 2>/dev/null
+rsync -a --exclude target --exclude .git --exclude evidence --exclude replays "$ROOT/" "$S/verif/"
+sed -i "s#path = \"/repo/purl\"#path = \"$S/repo/purl\"#" "$S/verif/harness/Cargo.toml"
+mkdir -p "$S/verif/evidence" "$S/verif/replays"
+# baseline: the unchanged tree must be silent
+"$S/verif/check" buildall >/dev/null 2>&1 || { echo "scratch build failed"; cat "$S"/verif/target/build-*.log | tail -20; exit 2; }
 for p in "${patches[@]}"; do
   name="$(basename "$p" .diff)"; [ "$name" = patch ] && name="$(basename "$(dirname "$p")")"
-  if ! git -C /repo apply "$p" 2>/dev/null; then echo -e "$name\tAPPLY-FAILED"; continue; fi
+  if ! git -C "$S/repo" apply "$p" 2>/dev/null; then echo -e "$name\tAPPLY-FAILED"; continue; fi
   suite="skipped"
   if [ "${SUITE:-1}" = 1 ]; then
-    if (cd /repo && cargo test --workspace --offline >/tmp/mutant-suite.log 2>&1); then suite="suite-passes"; else suite="SUITE-FAILS"; fi
+    if (cd "$S/repo" && cargo test --workspace --offline >"$S/suite.log" 2>&1); then suite="suite-passes"; else suite="SUITE-FAILS"; fi
   fi
-  caught=""; quiet=""
+  caught=""
   for c in $CHECKS; do
-    out="$("$ROOT/check" "$c" --tier quick 2>&1)"; rc=$?
+    out="$("$S/verif/check" "$c" --tier quick 2>&1)"; rc=$?
     if [ $rc -eq 1 ] && echo "$out" | grep -q "^VIOLATION property=$c "; then caught="$caught $c"
-    elif [ $rc -eq 2 ]; then caught="$caught $c(machinery)"
-    else quiet="$quiet $c"; fi
+    elif [ $rc -ne 0 ]; then caught="$caught $c(machinery:$rc)"; fi
   done
-  git -C /repo checkout -- .
+  git -C "$S/repo" checkout -q -- .
   echo -e "$name\t$suite\tcaught:$caught"
-  echo -e "$(date +%FT%T)\t$name\t$suite\tcaught:$caught" >> "$OUT"
+  echo -e "$(date +%FT%T)\t$(git -C "$ROOT" rev-parse --short HEAD)\t$name\t$suite\tcaught:$caught" >> "$OUT"
 done
-rm -f "$ROOT"/replays/*.json
-# restore evidence files to the unchanged tree's by re-running is the caller's business
